@@ -17,6 +17,8 @@ VARIABLES phase, S, W, tot, out
 vars == <<phase, S, W, tot, out>>
 \* cfg files cannot hold tuples:  Totals <- MCTotals..
 MCTotals1 == {<<1, 1>>}
+MCTotalsSub == {<<37, 100>>}
+MCTotalsRaw == {<<0, 1>>}
 MCTotals3 == {<<1, 1>>, <<37, 100>>, <<0, 1>>}
 MCTotals4 == {<<1, 1>>, <<37, 100>>, <<0, 1>>, <<5, 2>>}
 HW == Handed(W, tot)                       \* the sampler's weight vector (rationals)
